@@ -72,7 +72,7 @@ class GetFromPaths(GetByFinder):
         if encoded is not None:  # only None means "no sid entry" (0 or "" are values)
             data["sid"] = encoded
 
-        if attributes:
+        if attributes is not None:  # an empty list is a list: no key is asked for
             return {key: data.get(key) for key in attributes}
         else:
             return data
